@@ -9,6 +9,7 @@ CONSTANTS
   Typed = FALSE
   Ops = {"ConstructEmpty", "ConstructH", "ConstructSelf", "MoveConstruct", "AddHandle", "AddSelf", "AddFill", "MergeShl", "MoveAssign", "Pop", "Clear", "Destroy", "CoAwait", "Pause", "Yield", "ParResume", "CreateSP"}
   Fixed = TRUE
+  Ctxs = {"flow"}
   Targets = {}
 INVARIANTS TypeOK RepOK NoDoubleResume Conservation NoLeak
 PROPERTIES InlineNoAlloc MovedFromIsEmpty EmptyResumesNothing ValuePreserved ReadsAgree ResumeOrder QueueFIFO
